@@ -6,7 +6,7 @@
    to X == X at large coordinates is decided by the double / float sweep of the check (known finding F7). *)
 From Coq Require Import Reals List Lra.
 From Manif Require Import Scalar Mat Group RInst Generic LieSpec SO2 SE2 SO3 SE3 SE23 SGal3 Rn
-  SE2Proofs SO3Proofs SE23Proofs RnProofs Approx Approx_Inst Sym_SE2 Sym_SE3.
+  SE2Proofs SO3Proofs SE23Proofs RnProofs Approx Approx_Inst Sym_SE2 Sym_SE3 Sym_SE23.
 Import ListNotations.
 Local Open Scope R_scope.
 
@@ -72,6 +72,10 @@ Theorem C18_sym_SE3 eps X Y e : 0 < eps -> se3_valid X -> se3_valid Y -> 0 < e -
   (forall tx ty tz x y z w, g_compose (SE3 RS eps) (g_inverse (SE3 RS eps) Y) X = [tx; ty; tz; x; y; z; w] -> eps < x * x + y * y + z * z /\ w <> 0) ->
   g_isApprox (SE3 RS eps) X Y e = g_isApprox (SE3 RS eps) Y X e.
 Proof. intros H. exact (se3_isApprox_sym eps H X Y e). Qed.
+Theorem C18_sym_SE23 eps X Y e : 0 < eps -> se23_valid X -> se23_valid Y -> 0 < e ->
+  (forall tx ty tz x y z w vx vy vz, g_compose (SE23 RS eps) (g_inverse (SE23 RS eps) Y) X = [tx; ty; tz; x; y; z; w; vx; vy; vz] -> eps < x * x + y * y + z * z /\ w <> 0) ->
+  g_isApprox (SE23 RS eps) X Y e = g_isApprox (SE23 RS eps) Y X e.
+Proof. intros H. exact (se23_isApprox_sym eps H X Y e). Qed.
 (* any group: symmetric whenever log(Z^-1) = -log(Z) for the relative element Z = Y^-1 X *)
 Theorem C18_sym_generic (G : GroupOps RS) (C : GroupCore G) X Y e : gc_valid C X -> gc_valid C Y -> 0 < e ->
   length (rminus_val G X Y) = g_dof G ->
